@@ -311,8 +311,9 @@ WHOLE = [
      '    @property\n    def prop(self):\n        return 1\n'
      '    def __call__(self, a, *args, **kwargs):\n        return g(*args, **kwargs)\n'
      '    pm = functools.partialmethod(m, 1)\n'
-     'c = C()\n',
-     ['C', 'C.m', 'c.m', 'C.cm', 'c.cm', 'C.sm', 'c', "C.__dict__['sm']", "C.__dict__['cm']", 'c.pm', 'C.prop.fget']),
+     'c = C()\nclass CSub(C):\n    pass\ncsub = CSub()\n',
+     ['C', 'C.m', 'c.m', 'C.cm', 'c.cm', 'C.sm', 'c', "C.__dict__['sm']", "C.__dict__['cm']", 'c.pm', 'C.prop.fget',
+      'CSub.sm', 'CSub.cm', 'CSub.m', 'csub.m', 'CSub']),
     ('new_and_meta',
      'class Meta(type):\n    def __call__(cls, a, *args, **kwargs):\n        return super().__call__(*args, **kwargs)\n'
      'class N(object, metaclass=Meta):\n'
@@ -451,6 +452,18 @@ WHOLE = [
      'class M1(object):\n    def meth(self, *args, **kwargs):\n        return middle(*args, name=1, **kwargs)\nm1 = M1()\n'
      'pmid = functools.partial(middle, name=1)\npmid2 = functools.partial(middle, 1, 2)\n',
      ['outer', 'outer2', 'm1.meth', 'M1.meth', 'pmid', 'pmid2', 'middle']),
+    ('builtins_module_globals',
+     'import builtins as _b0\n'
+     'ns1 = {"g": g, "__builtins__": _b0}\n'
+     'exec(compile("def f(a, *args, **kwargs):\\n    return print(*args, **kwargs)\\n"\n'
+     '             "def f2(a, *args, **kwargs):\\n    return not_defined_anywhere0(*args, **kwargs)\\n"\n'
+     '             "def f3(a, *args, **kwargs):\\n    return g(*args, **kwargs)\\n", "<sim-exec-b0>", "exec"), ns1)\n'
+     'import linecache as _lc0\n'
+     '_src0 = ("def f(a, *args, **kwargs):\\n    return print(*args, **kwargs)\\n"\n'
+     '         "def f2(a, *args, **kwargs):\\n    return not_defined_anywhere0(*args, **kwargs)\\n"\n'
+     '         "def f3(a, *args, **kwargs):\\n    return g(*args, **kwargs)\\n")\n'
+     '_lc0.cache["<sim-exec-b0>"] = (len(_src0), None, _src0.splitlines(True), "<sim-exec-b0>")\n'
+     'f, f2, f3 = ns1["f"], ns1["f2"], ns1["f3"]\n', ['f', 'f2', 'f3']),
     ('pep563_module', '#FUTURE#\nimport typing\n'
                       'def noparams() -> typing.List[int]:\n    return []\n'
                       'def fwd(*args, **kwargs) -> int:\n    return g(*args, **kwargs)\n'
@@ -981,6 +994,29 @@ class C07Gen(object):
                         check_sphinx(res, w.modname + '.' + l, viol, fault)
                         if res.violations:
                             break
+            if not res.violations and ch.chance(1, 3, 'change-defaults-and-retrieve-again'):
+                # history: a function's defaults are changed (f.__defaults__ = None) after it has
+                # been looked at; the next retrieval must describe the function as it is now
+                import types as _types
+                done = 0
+                for label in w.labels():
+                    try:
+                        subj = w.subject(label)
+                    except Exception:
+                        continue
+                    fobj = subj.__func__ if isinstance(subj, _types.MethodType) else subj
+                    if not isinstance(fobj, _types.FunctionType) or not (fobj.__defaults__ or fobj.__kwdefaults__):
+                        continue
+                    if not fobj.__code__.co_filename.startswith('<sim'):
+                        continue
+                    fobj.__defaults__ = None
+                    fobj.__kwdefaults__ = None
+                    check_subject(res, tpl, label, w.subject(label), fault, viol)
+                    done += 1
+                    if res.violations or done >= 3:
+                        break
+                if done:
+                    res.counters['probe:retrieved_again_after_defaults_changed'] += 1
             fired = _reads.get(w.filename, 0) > reads0
             if fault != 'none' and fired:
                 res.counters['fired:' + fault] += 1
